@@ -1,7 +1,7 @@
 (* Property C12 — OPB and LaTeX renderings denote the formula held in memory.
    ONLY statements; every proof is `exact <lemma>` (or a vm_compute witness). *)
 From Coq Require Import String ZArith List Bool Ascii.
-From Cnfgen Require Import Sem Text TextFacts Dimacs DimacsFacts OpbText OpbTextFacts Latex.
+From Cnfgen Require Import Sem Text TextFacts Dimacs DimacsFacts OpbText OpbTextFacts Latex LatexFacts.
 Import ListNotations.
 Open Scope Z_scope.
 
@@ -72,3 +72,64 @@ Theorem opb_first_line_counts : forall n m, 0 <= n -> 0 <= m -> small n -> small
   parse_opb_spec (opb_spec_line n m) = Some (n, m).
 Proof. exact parse_opb_spec_line. Qed.
 Print Assumptions opb_first_line_counts.
+
+(* ---- LaTeX ---- *)
+
+(* the full claim: the align blocks written by _print_latex (snippet: no split,
+   compact; document: a new block every 35 rows, not compact; any other split)
+   decode to one row per clause / constraint, in order, each with exactly the
+   literal tokens of that row ({name}, \overline{name} or {\overline{pre}post};
+   for constraints preceded by the coefficient when it exceeds 1, followed by the
+   relation and the bound); the empty clause is \square; \top is present exactly
+   when there is no row *)
+Definition latex_rows_statement : Prop :=
+  forall names split compact f t,
+  print_latex names split compact f = Some t ->
+  exists rows, formula_lrows names f = Some rows /\
+               rows_of_latex (is_opb f) t = (negb (nonempty rows), rows).
+
+(* proved for names without white space inside *)
+Theorem latex_rows_partial : forall names split compact f t,
+  latex_names_ok names = true ->
+  print_latex names split compact f = Some t ->
+  exists rows, formula_lrows names f = Some rows /\
+               rows_of_latex (is_opb f) t = (negb (nonempty rows), rows).
+Proof. exact latex_rows_proved. Qed.
+Print Assumptions latex_rows_partial.
+
+(* a name with a blank is cut into two tokens: the rows are no longer told apart token by token *)
+Theorem latex_rows_names_refuted : ~ latex_rows_statement.
+Proof.
+  intros H. destruct (H [lit "a b"] (-1) true (FCnf 1 [[1]]) _ eq_refl) as (rows & E1 & E2).
+  vm_compute in E1. inversion E1; subst rows. vm_compute in E2. discriminate E2.
+Qed.
+Print Assumptions latex_rows_names_refuted.
+
+(* one row per clause / constraint *)
+Theorem latex_row_count : forall names f rows,
+  formula_lrows names f = Some rows -> length rows = length (constraints f).
+Proof. exact formula_lrows_length. Qed.
+Print Assumptions latex_row_count.
+
+(* the writer is defined (no KeyError) when every literal has a name *)
+Theorem latex_defined : forall names split compact f,
+  (forall c l, In c (constraints f) -> In l (map snd (pb_terms c)) -> l <> 0 /\ Z.abs l <= len names) ->
+  exists t, print_latex names split compact f = Some t.
+Proof. exact print_latex_defined. Qed.
+Print Assumptions latex_defined.
+
+(* the empty clause and the empty formula are rendered distinctly; a page split
+   neither drops nor repeats a row *)
+Example latex_rows_nonvacuous :
+  let names := [lit "x_1"; lit "y"; lit "z^2_3"] in
+  latex_names_ok names = true /\
+  option_map (rows_of_latex false) (print_latex_string names (FCnf 3 [])) = Some (true, []) /\
+  option_map (rows_of_latex false) (print_latex_string names (FCnf 3 [[]])) = Some (false, [RSquare]) /\
+  option_map (rows_of_latex false) (print_latex names 2 false (FCnf 3 [[1; -2]; []; [-1; 3]; [-3]; [2]])) =
+    Some (false, [RClause [lit "{x_1}"; lit "\overline{y}"]; RSquare;
+                  RClause [lit "{\overline{x}_1}"; lit "{z^2_3}"]; RClause [lit "{\overline{z}^2_3}"];
+                  RClause [lit "{y}"]]) /\
+  option_map (rows_of_latex true)
+             (print_latex names 35 false (FOpb 3 [mkpbc [(2, -1); (1, 3)] PGe 2; mkpbc [] PEq 0])) =
+    Some (false, [RConstraint [lit "2{\overline{x}_1}"; lit "{z^2_3}"] PGe (lit "2"); RConstraint [] PEq (lit "0")]).
+Proof. vm_compute. repeat split. Qed.
